@@ -27,44 +27,83 @@ Fixpoint seg_loop (st : list bytes) (l : list bytes) : option (list bytes) :=
 Definition toSegments (cwd : list bytes) (path : bytes) : option (list bytes) :=
   seg_loop (if isabs path then [] else rev cwd) (split_sl path).
 
+(** ftp._isGlobbingExpression on the last segment: fnmatch.translate(s) differs from the translation of a
+    plain word iff s contains a character that fnmatch treats specially ('*', '?', '[') or that re.escape
+    escapes (CPython 3.12: ()[]{}?*+-|^$\.&~# space \t \n \r \v \f) *)
+Definition glob_char (c : N) : bool :=
+  existsb (N.eqb c) [40; 41; 91; 93; 123; 125; 63; 42; 43; 45; 124; 94; 36; 92; 46; 38; 126; 35; 32; 9; 10; 13; 11; 12]%N.
+Definition is_glob (s : bytes) : bool := existsb glob_char s.
+
+(** NLST: a globbing last segment is taken off and used as a filter on the listing of its PARENT *)
+Definition nlst_target (segs : list bytes) : list bytes :=
+  match rev segs with
+  | [] => segs
+  | last :: _ => if is_glob last then removelast segs else segs
+  end.
+
+(** LIST ignores the flag-like arguments -a -l -la -al (any case) *)
+Definition lower (c : N) : N := if N.leb 65 c && N.leb c 90 then (c + 32)%N else c.
+Definition list_arg (p : bytes) : bytes :=
+  let l := map lower p in
+  if beq l [45; 97]%N || beq l [45; 108]%N || beq l [45; 108; 97]%N || beq l [45; 97; 108]%N then [] else p.
+
 (** the commands that carry paths *)
 Inductive cmd :=
 | Cwd (p : bytes)            (* CWD p: shell.access(segments); on success the working directory changes *)
 | Cdup                       (* CDUP = CWD ".." *)
-| Op (p : bytes)             (* LIST NLST SIZE MDTM RETR STOR DELE MKD RMD: one shell call on toSegments(wd, p) *)
-| Ren (a b : bytes).         (* RNFR a, RNTO b: shell.rename(toSegments a, toSegments b) *)
+| Op (p : bytes)             (* SIZE MDTM RETR STOR DELE MKD RMD: one shell call on toSegments(wd, p) *)
+| Lst (p : bytes)            (* LIST *)
+| Nlst (p : bytes)           (* NLST *)
+| Rnfr (a : bytes)           (* RNFR a: remembered unresolved; only RNTO is accepted next *)
+| Rnto (b : bytes).          (* RNTO b: shell.rename(toSegments wd a, toSegments wd b) *)
+
+(** protocol state that matters for paths: the working directory and a pending RNFR name *)
+Definition pstate := (list bytes * option bytes)%type.
 
 Section Session.
   (** does shell.access succeed on these segments?  (the file system: arbitrary) *)
   Variable access : list bytes -> bool.
 
-  (** new working directory, and the segment lists handed to the shell (None = refused, no shell call) *)
-  Definition step (wd : list bytes) (c : cmd) : list bytes * list (option (list bytes)) :=
-    match c with
-    | Cwd p =>
-        match toSegments wd p with
-        | Some segs => (if access segs then segs else wd, [Some segs])
-        | None => (wd, [None])
+  Definition cwd_to (wd : list bytes) (p : bytes) : list bytes * list (option (list bytes)) :=
+    match toSegments wd p with
+    | Some segs => (if access segs then segs else wd, [Some segs])
+    | None => (wd, [None])
+    end.
+
+  (** new state, and the segment lists handed to the shell ([None] alone = refused, no shell call) *)
+  Definition step (st : pstate) (c : cmd) : pstate * list (option (list bytes)) :=
+    let '(wd, pending) := st in
+    match pending with
+    | Some a =>
+        (* state RENAMING: everything but RNTO is answered "RNTO required after RNFR" and the state stays *)
+        match c with
+        | Rnto b =>
+            match toSegments wd a, toSegments wd b with
+            | Some x, Some y => ((wd, None), [Some x; Some y])
+            | _, _ => ((wd, None), [None])
+            end
+        | _ => (st, [None])
         end
-    | Cdup =>
-        match toSegments wd dotdot with
-        | Some segs => (if access segs then segs else wd, [Some segs])
-        | None => (wd, [None])
-        end
-    | Op p => (wd, [toSegments wd p])
-    | Ren a b =>
-        match toSegments wd a, toSegments wd b with
-        | Some x, Some y => (wd, [Some x; Some y])
-        | _, _ => (wd, [None])
+    | None =>
+        match c with
+        | Cwd p => let '(wd', o) := cwd_to wd p in ((wd', None), o)
+        | Cdup => let '(wd', o) := cwd_to wd dotdot in ((wd', None), o)
+        | Op p => (st, [toSegments wd p])
+        | Lst p => (st, [toSegments wd (list_arg p)])
+        | Nlst p => (st, [option_map nlst_target (toSegments wd p)])
+        | Rnfr a => ((wd, Some a), [None])
+        | Rnto _ => (st, [None])        (* no RNFR before: AttributeError -> "internal server error" *)
         end
     end.
 
-  Fixpoint run (wd : list bytes) (cs : list cmd) : list bytes * list (list (option (list bytes))) :=
+  Fixpoint run (st : pstate) (cs : list cmd) : pstate * list (list (option (list bytes))) :=
     match cs with
-    | [] => (wd, [])
-    | c :: r => let '(wd1, o) := step wd c in let '(wd2, os) := run wd1 r in (wd2, o :: os)
+    | [] => (st, [])
+    | c :: r => let '(st1, o) := step st c in let '(st2, os) := run st1 r in (st2, o :: os)
     end.
 End Session.
+
+Definition start : pstate := ([], None).
 
 (** a segment the shell may be given: non-empty, no '/', no NUL, not "." and not ".." *)
 Definition okseg (s : bytes) : bool := okc s && negb (has0 s).
